@@ -38,6 +38,7 @@ def run(ck, fb):
     r02e(ck, fb)
     r02f(ck, fb)
     r02g(ck, fb)
+    r02h(ck, fb)
 
 
 def r02a(ck, fb):
@@ -116,7 +117,7 @@ def r02d(ck, fb):
     w = ck.main(LIM + 'write', 'R02d')
     if not w:
         return
-    wa = util.sites_on_field(w, r'AsyncWriteExt::write_all$', 'data_file')
+    wa = util.sites_on_field(w, r'AsyncWriteExt::write_all$', 'data_file', deep=1)
     ck.floor('R02d', 'data_file.write_all in write()', len(wa), 1)
     for s in wa:
         ok = False
@@ -263,3 +264,32 @@ def r02g(ck, fb):
             if ('rnacos::raft::filestore::raftlog::WriteLogResult', 'LogIndexEqualError') in util.variant_guards(b, i):
                 ok = False
         ck.require(ok, 'R02g', 'write_log_result_to_result:LogIndexEqualError->Err', b.where(), 'LogIndexEqualError is not mapped to Err')
+
+
+def r02h(ck, fb):
+    ck.rule('R02h', 'zero terminator: LogInnerManager::write extends the file whenever file_len <= data_cursor + len (non-strict), so that at least '
+                    'one zero byte follows the last record - the end-of-log recovery scan (move_to_index_by_count) stops on the first zero length '
+                    'and does not count the records it scanned when it runs into end-of-file instead')
+    w = ck.main(LIM + 'write', 'R02h')
+    if not w:
+        return
+    sl = util.sites_on_field(w, r'tokio::fs::File::set_len$', 'data_file')
+    ck.floor('R02h', 'set_len in write()', len(sl), 1)
+    for s in sl:
+        ok = False
+        for a in cfg.guard_atoms(w, s.bb):
+            if a[0] != 'cmp':
+                continue
+            da, db = cfg.strip_calls(w, a[2]), cfg.strip_calls(w, a[3])
+            fa = da['k'] == 'place' and da['fields'][-1:] == ['file_len']
+            fbb = db['k'] == 'place' and db['fields'][-1:] == ['file_len']
+            # file_len <= X (true) | X >= file_len (true) | file_len > X (false) | X < file_len (false)
+            if fa and ((a[1] == 'Le' and a[4] is True) or (a[1] == 'Gt' and a[4] is False)):
+                ok = True
+            if fbb and ((a[1] == 'Ge' and a[4] is True) or (a[1] == 'Lt' and a[4] is False)):
+                ok = True
+        ck.require(ok, 'R02h', 'write:extend-keeps-zero-terminator', s.where(),
+                   'the file is only extended when file_len < data_cursor + len (strict): a record may end exactly on the end of the file, the recovery scan '
+                   'then hits end-of-file instead of a zero length and forgets every entry after the last 128-record index entry on reopen')
+        wa = util.sites_on_field(w, r'AsyncWriteExt::write_all$', 'data_file', deep=1)
+        ck.require(bool(wa) and all(s.bb in cfg.reach_to(w, [x.bb]) for x in wa), 'R02h', 'write:extend-before-write', s.where(), 'the extension does not precede the data write')
